@@ -5,7 +5,7 @@ from ..monitors.water import C03Bounds
 
 PID = "C03"
 LEVEL = "model_checking"
-WITNESSES = ["air_dry_compartment", "saturated_compartment", "below_wilting_point", "ponded_state", "pond_at_bund_height"]
+WITNESSES = ["air_dry_compartment", "saturated_compartment", "below_wilting_point", "ponded_state", "pond_above_half_bund_height"]
 
 EXTREME_BASES = [
     A._b(soil="Sand", iwc="WP", word="dry", off=True, win="w3", crop="cotton.2"),      # multi-year drought
@@ -14,6 +14,8 @@ EXTREME_BASES = [
     A._b(soil="SandyLoam", iwc="WP", gw="0.3", dz="deep30", word="dry"),
     A._b(soil="Paddy", iwc="SAT", gw="0.8", dz="deep30", word="wet", field="bunds200", crop="rice.2"),
 ]
+
+NONTRIVIAL = ['air_dry_compartment', 'saturated_compartment', 'ponded_state', 'pond_above_half_bund_height']
 
 
 def scenarios(tier, seed=0):
